@@ -57,9 +57,15 @@ def belongs(priv, pub) -> bool:
         return False
 
 
+STALE = b"left behind by an earlier invocation\n"
+
+
 def run_keys(ctx, tr, d, s, k, via):
     prefix = d / f"k{k}"
     ok = True
+    if s.get("stale"):   # history: both key files exist already
+        for suffix in ("priv", "pub"):
+            (d / f"k{k}_{suffix}.{s['enc']}").write_bytes(STALE)
     if via == "cli":
         p = subprocess.run(core.cli_cmd("keys", "--output-file", prefix, "--type", s["type"], "--encoding", s["enc"],
                                         "--private-format", s["privfmt"], "--public-format", s["pubfmt"]),
@@ -76,6 +82,9 @@ def run_keys(ctx, tr, d, s, k, via):
                 raise
             ok = False
     pf, qf = d / f"k{k}_priv.{s['enc']}", d / f"k{k}_pub.{s['enc']}"
+    for f_ in (pf, qf):
+        if f_.exists() and f_.read_bytes() == STALE:
+            f_.unlink()   # not written by this invocation
     r = {"ok": ok, "privExists": pf.exists(), "pubExists": qf.exists(), "privType": "none", "pubType": "none",
          "privEnc": "none", "pubEnc": "none", "pair": False}
     if pf.exists() and qf.exists():
@@ -208,6 +217,7 @@ def run(ctx: core.Check):
     edge_s = [s for s in scns if s["kind"] == "convertedge"]
     ctx.note(f"Use B/C: {len(keys_s)} keys scenarios")
     for k, s in enumerate(keys_s):
+        s["stale"] = k % 3 == 1
         run_keys(ctx, tr, d, s, k, "lib")
         if k % 6 == 0:
             run_keys(ctx, tr, d, s, 1000 + k, "cli")
